@@ -1,0 +1,149 @@
+//! Table inspection for the external verification harness (cargo feature `verif`).
+
+use std::convert::TryFrom;
+use std::sync::Arc;
+
+use crate::iterator::RainDbIterator;
+use crate::key::InternalKey;
+use crate::verif::{ikey_tuple, Entry, IKey};
+use crate::{filter_policy, ReadOptions};
+
+use super::{BlockHandle, MetaIndexBlockReader, MetaIndexKey, Table, TwoLevelIterator};
+
+/// One data block of a table as the index describes it.
+#[derive(Clone, Debug)]
+pub struct BlockDump {
+    /// offset of the block in the file (what the filter block is consulted with)
+    pub offset: u64,
+    /// size of the (possibly compressed) block contents, without the 5-byte descriptor
+    pub size: u64,
+    /// the index entry's key
+    pub index_key: IKey,
+    /// the decoded entries of the block
+    pub entries: Vec<Entry>,
+}
+
+/// Structural dump of a table file.
+#[derive(Clone, Debug)]
+pub struct TableDump {
+    pub blocks: Vec<BlockDump>,
+    /// raw contents of the filter block, if the table has one
+    pub filter_block: Option<Vec<u8>>,
+    pub file_size: u64,
+}
+
+/// Result of a point lookup in one table.
+#[derive(Clone, Debug, PartialEq, Eq)]
+pub enum TableAnswer {
+    Found(Vec<u8>),
+    Deleted,
+    NotInFile,
+    Error(String),
+}
+
+impl Table {
+    pub(crate) fn verif_dump(&self) -> Result<TableDump, String> {
+        let mut blocks = vec![];
+        let mut index_iter = self.index_block.iter();
+        index_iter.seek_to_first().map_err(|e| e.to_string())?;
+        while index_iter.is_valid() {
+            let (key, raw_handle) = index_iter.current().unwrap();
+            let handle = BlockHandle::try_from(raw_handle).map_err(|e| e.to_string())?;
+            let reader = self
+                .get_block_reader(
+                    &ReadOptions {
+                        fill_cache: false,
+                        snapshot: None,
+                    },
+                    &handle,
+                )
+                .map_err(|e| e.to_string())?;
+            let mut entries = vec![];
+            let mut block_iter = reader.iter();
+            block_iter.seek_to_first().map_err(|e| e.to_string())?;
+            while block_iter.is_valid() {
+                let (entry_key, value) = block_iter.current().unwrap();
+                let (user_key, seq, op) = ikey_tuple(entry_key);
+                entries.push((user_key, seq, op, value.clone()));
+                block_iter.next();
+            }
+            blocks.push(BlockDump {
+                offset: handle.get_offset(),
+                size: handle.get_size(),
+                index_key: ikey_tuple(key),
+                entries,
+            });
+            index_iter.next();
+        }
+
+        let metaindex_block: MetaIndexBlockReader =
+            Table::get_data_block_reader_from_disk(&*self.file, self.footer.get_metaindex_handle())
+                .map_err(|e| e.to_string())?;
+        let filter_block_name = filter_policy::get_filter_block_name(self.options.filter_policy());
+        let mut metaindex_iter = metaindex_block.iter();
+        metaindex_iter
+            .seek(&MetaIndexKey::new(filter_block_name))
+            .map_err(|e| e.to_string())?;
+        let filter_block = match metaindex_iter.current() {
+            Some((_key, raw_handle)) => {
+                let handle = BlockHandle::try_from(raw_handle).map_err(|e| e.to_string())?;
+                Some(Table::read_block_from_disk(&*self.file, &handle).map_err(|e| e.to_string())?)
+            }
+            None => None,
+        };
+
+        Ok(TableDump {
+            blocks,
+            filter_block,
+            file_size: self.file.len().map_err(|e| e.to_string())?,
+        })
+    }
+
+    pub(crate) fn verif_get(&self, user_key: &[u8], sequence: u64) -> TableAnswer {
+        let key = InternalKey::new_for_seeking(user_key.to_vec(), sequence);
+        match self.get(&ReadOptions::default(), &key) {
+            Ok(Some(value)) => TableAnswer::Found(value),
+            Ok(None) => TableAnswer::Deleted,
+            Err(super::ReadError::KeyNotFound) => TableAnswer::NotInFile,
+            Err(other) => TableAnswer::Error(other.to_string()),
+        }
+    }
+}
+
+/// A cursor over a table (`TwoLevelIterator`) with tuple-typed keys.
+pub struct TableCursor {
+    iter: TwoLevelIterator,
+}
+
+impl TableCursor {
+    pub(crate) fn new(table: Arc<Table>) -> Self {
+        TableCursor {
+            iter: Table::iter_with(table, ReadOptions::default()),
+        }
+    }
+    pub fn seek(&mut self, user_key: &[u8], sequence: u64) -> Result<(), String> {
+        let key = InternalKey::new_for_seeking(user_key.to_vec(), sequence);
+        self.iter.seek(&key).map_err(|e| e.to_string())
+    }
+    pub fn seek_to_first(&mut self) -> Result<(), String> {
+        self.iter.seek_to_first().map_err(|e| e.to_string())
+    }
+    pub fn seek_to_last(&mut self) -> Result<(), String> {
+        self.iter.seek_to_last().map_err(|e| e.to_string())
+    }
+    pub fn next(&mut self) {
+        self.iter.next();
+    }
+    pub fn prev(&mut self) {
+        self.iter.prev();
+    }
+    pub fn is_valid(&self) -> bool {
+        self.iter.is_valid()
+    }
+    pub fn current(&self) -> Option<Entry> {
+        self.iter.current().map(|(key, value)| {
+            let (user_key, seq, op) = ikey_tuple(key);
+            (user_key, seq, op, value.clone())
+        })
+    }
+}
